@@ -67,7 +67,7 @@ func init() {
 			Patterns: []string{"./runtime"},
 			Units:    []*Unit{u},
 			Regex:    "^VH_C15_",
-			Cfg:      sym.Config{MaxLoop: 80},
+			Cfg:      sym.Config{MaxLoop: 80, NoSummaries: true}, // C15 is about the real helpers themselves
 			Bounds: map[string]string{
 				"Sov/Soz":      "all 2^64 values",
 				"EncodeVarint": "buffer length 0..2^20 symbolic, offset and value unconstrained 64-bit",
